@@ -260,6 +260,36 @@ func c06TempPairing(p *Prog, r *Report) {
 			}
 		}
 		r.Check(okJoin, "D3-temp-pairing", fa.key+":path-in-tempdir", p.Pos(mk.Pos()), "returned path lies in the fresh temp dir", "the path GetRealPath returns for a virtual file system is not inside its fresh temp directory")
+		// and that on *every* successful return taken without a real root: the callers remove
+		// filepath.Dir(<returned path>) whenever Root == "", so any other path handed back in that case
+		// (the name of an *os.File inside the scanned tree, say) gets its directory deleted
+		isRoot := func(v ssa.Value) bool { return loadsField(v, "ScanInput", "Root") }
+		rootSet, _ := guardEdges(grp, func(c ssa.Value) (bool, bool) {
+			b, ok := c.(*ssa.BinOp)
+			if !ok || (b.Op != token.EQL && b.Op != token.NEQ) {
+				return false, false
+			}
+			if s, isS := constString(b.Y); isS && s == "" && isRoot(b.X) {
+				return true, b.Op == token.NEQ
+			}
+			if s, isS := constString(b.X); isS && s == "" && isRoot(b.Y) {
+				return true, b.Op == token.NEQ
+			}
+			if lc, isL := b.X.(*ssa.Call); isL && isCallTo(lc, "builtin", "", "len") && isRoot(lc.Call.Args[0]) {
+				if k, isK := constInt(b.Y); isK && k == 0 {
+					return true, b.Op == token.NEQ
+				}
+			}
+			return false, false
+		})
+		for i, ret := range returnsOf(grp) {
+			if !isNilConst(retVal(ret, 1)) {
+				continue
+			}
+			inTemp := derivesFrom(retVal(ret, 0), dirv, deriveOpts{throughCall: propagatingCall}) || derivesFromJoin(retVal(ret, 0), dirv)
+			realRoot := len(rootSet) > 0 && onlyVia(grp, ret.Block(), rootSet)
+			r.Check(inTemp || realRoot, "D3-temp-pairing", fmt.Sprintf("%s:success-return#%d", fa.key, i), p.Pos(ret.Pos()), "a path under the real root, or inside the fresh temp dir", "GetRealPath can hand back, for a virtual root, a path that is not inside a temp directory of its own: its callers delete filepath.Dir of whatever they got back when Root is empty — here a directory of the scanned tree")
+		}
 	}
 	// callers
 	ncall := 0
@@ -422,6 +452,17 @@ func c06Unpack(p *Prog, r *Report) {
 		return c.Call.StaticCallee() == pob && c.Call.Args[0] == ssa.Value(up.Params[0]) && isFull(c.Call.Args[1])
 	})
 	_, inside := guardEdges(up, contain)
+	// nothing exists at fullPath yet: the error of os.Lstat(fullPath) is not nil. The containment
+	// check resolves the *parent*; os.WriteFile follows a symlink that an earlier entry of the same
+	// name left at the path itself, so a regular file is only written where Lstat found nothing.
+	absent, _ := guardEdges(up, condNonNil(func(v ssa.Value) bool {
+		ex, ok := v.(*ssa.Extract)
+		if !ok || ex.Index != 1 {
+			return false
+		}
+		lc, ok := ex.Tuple.(*ssa.Call)
+		return ok && refOf(lc.Common()).is("os", "", "Lstat") && isFull(lc.Call.Args[0])
+	}))
 	neff := 0
 	forEachInstr(up, func(b *ssa.BasicBlock, _ int, in ssa.Instruction) {
 		c := callOf(in)
@@ -460,6 +501,9 @@ func c06Unpack(p *Prog, r *Report) {
 			r.Fail("D4-containment", site, pos, prim+" is reachable without pathOutsideBaseDirectory(dir, fullPath) having returned false for this path: through a symlinked parent it creates or writes outside the target directory")
 		default:
 			r.OK("D4-containment", site, pos, "after the lexical test and the containment check")
+		}
+		if prim == "os.WriteFile" {
+			r.Check(len(absent) > 0 && onlyVia(up, b, absent), "D4-containment", site+":nothing-there-yet", pos, "written only where os.Lstat(fullPath) found nothing", "a regular file is written at a path that may already hold something (os.Lstat(fullPath) is not consulted on every path): os.WriteFile follows a symlink left there by an earlier entry of the same name and writes outside the target directory")
 		}
 	})
 	r.Instances("D4-containment", "effect sites in unpack", neff, 5)
